@@ -1,4 +1,5 @@
 """Path state, branching by decision prefix, obligations, heap, fresh values."""
+import os
 import z3
 from .values import *   # noqa
 
@@ -130,7 +131,7 @@ class Core:
     """Solver access + path bookkeeping shared by the executor."""
 
     FEAS_TIMEOUT_MS = 3000
-    FEAS_FULL_TIMEOUT_MS = 600
+    FEAS_FULL_TIMEOUT_MS = int(os.environ.get("PYVC_FEAS_MS", "1500"))
 
     def __init__(self):
         self.st = None
